@@ -235,6 +235,10 @@ pub struct Interpreter {
     /// Uses ModuleExport to distinguish direct exports (with live bindings) from re-exports
     pub exports: FxHashMap<JsString, ModuleExport>,
 
+    /// Roots the object values held in `exports`: the map is plain Rust data the collector
+    /// does not see, and `export default <expression>` has no binding that would hold its value
+    pub(crate) exports_guard: Guard<JsObject>,
+
     /// Call stack for stack traces
     pub call_stack: Vec<StackFrame>,
 
@@ -369,6 +373,7 @@ impl Interpreter {
     pub fn new() -> Self {
         let heap: Heap<JsObject> = Heap::new();
         let root_guard = heap.create_guard();
+        let exports_guard = heap.create_guard();
 
         // Create prototypes (all rooted)
         let object_prototype = root_guard.alloc();
@@ -461,6 +466,7 @@ impl Interpreter {
             range_error_prototype,
             syntax_error_prototype,
             exports: FxHashMap::default(),
+            exports_guard,
             call_stack: Vec::new(),
             next_generator_id: 1,
             next_symbol_id: symbol_counter,
@@ -904,6 +910,7 @@ impl Interpreter {
         self.env_guards.clear();
         self.call_stack.clear();
         self.exports.clear();
+        self.exports_guard.clear();
         self.pending_orders.clear();
         self.order_responses.clear();
         self.cancelled_orders.clear();
@@ -1011,6 +1018,28 @@ impl Interpreter {
         result
     }
 
+    /// Objects exported by value in a drained export list. They stay rooted through
+    /// `exports_guard` while the namespace object is built from the list.
+    fn exported_objects(exports: &[(JsString, ModuleExport)]) -> Vec<Gc<JsObject>> {
+        exports
+            .iter()
+            .filter_map(|(_, export)| match export {
+                ModuleExport::Direct {
+                    value: JsValue::Object(obj),
+                    ..
+                } => Some(obj.clone()),
+                _ => None,
+            })
+            .collect()
+    }
+
+    /// The namespace object (or nothing, for a value that has a live binding) holds them now.
+    fn release_exported_objects(&mut self, objects: &[Gc<JsObject>]) {
+        for obj in objects {
+            self.exports_guard.unguard(obj);
+        }
+    }
+
     /// Create a module namespace object from current exports and store in loaded_modules
     fn finalize_module_exports(
         &mut self,
@@ -1022,6 +1051,7 @@ impl Interpreter {
 
         // Drain exports to a vector to avoid borrow conflict
         let exports: Vec<_> = self.exports.drain().collect();
+        let exported_objects = Self::exported_objects(&exports);
 
         // Create properties for exports with proper live binding support
         for (export_name, module_export) in exports {
@@ -1089,6 +1119,8 @@ impl Interpreter {
                 }
             }
         }
+
+        self.release_exported_objects(&exported_objects);
 
         // Root the module namespace object (lives forever)
         self.root_guard.guard(module_obj.clone());
@@ -1782,6 +1814,7 @@ impl Interpreter {
 
         // Drain exports to a vector to avoid borrow conflict
         let exports: Vec<_> = self.exports.drain().collect();
+        let exported_objects = Self::exported_objects(&exports);
 
         // Create properties for exports with proper live binding support
         for (export_name, module_export) in exports {
@@ -1849,6 +1882,8 @@ impl Interpreter {
                 }
             }
         }
+
+        self.release_exported_objects(&exported_objects);
 
         // Root the module namespace object (lives forever)
         self.root_guard.guard(module_obj.clone());
@@ -3574,6 +3609,7 @@ impl Interpreter {
 
         // Drain exports to a vector to avoid borrow conflict
         let exports: Vec<_> = self.exports.drain().collect();
+        let exported_objects = Self::exported_objects(&exports);
 
         // Create properties for exports with proper live binding support
         for (export_name, module_export) in exports {
@@ -3640,6 +3676,8 @@ impl Interpreter {
                 }
             }
         }
+
+        self.release_exported_objects(&exported_objects);
 
         // Restore saved exports
         self.exports = saved_exports;
